@@ -195,6 +195,8 @@ func planText(db *eng.DB, ctx context.Context, changes []schema.Change) string {
 }
 
 func checkCase(c Case) (Outcome, error) {
+	model.SettleShortFKs(&c.A, &c.B)
+	model.SettleShortFKs(&c.B, &c.A)
 	var out Outcome
 	ctx := context.Background()
 	db, err := build(ctx, c.A, c.RouteA)
